@@ -259,7 +259,31 @@ fn json_recovers(v: &Value, j: &serde_json::Value, toks: &mut std::slice::Iter<S
         (Value::Float(Float(f)), _) if !f.is_finite() => Ok(()), // the property speaks about finite REAL only
         (Value::Bool(a), J::Bool(b)) if a == b => Ok(()),
         (Value::String(a), J::String(b)) if a == b => Ok(()),
-        (Value::Timestamp(_), J::String(b)) | (Value::Interval(_), J::String(b)) if *b == v.to_string() => Ok(()),
+        (Value::Interval(d), J::String(b)) if *b == v.to_string() => {
+            // the text form of a non-negative interval carries the value (to the millisecond): hours:minutes:seconds.millis
+            // with hours unbounded — judged by reading the text back, not by re-deriving the text
+            if *d >= chrono::Duration::zero() {
+                let parts: Vec<&str> = b.split(|c| c == ':' || c == '.').collect();
+                let nums: Vec<Option<i64>> = parts.iter().map(|p| p.parse::<i64>().ok()).collect();
+                let ok = nums.len() == 4 && nums.iter().all(|n| n.is_some()) && {
+                    let n: Vec<i64> = nums.iter().map(|n| n.unwrap()).collect();
+                    n[1] < 60 && n[2] < 60 && n[3] < 1000 && n[0].checked_mul(3_600_000).and_then(|h| h.checked_add(n[1] * 60_000 + n[2] * 1000 + n[3])) == Some(d.num_milliseconds())
+                };
+                if !ok { return Err(format!("INTERVAL of {} ms printed as {:?}, which does not read back as that duration", d.num_milliseconds(), b)); }
+            }
+            Ok(())
+        }
+        (Value::Timestamp(t), J::String(b)) if *b == v.to_string() => {
+            // likewise a timestamp with a four-digit year reads back (to the millisecond) as the same local time
+            use chrono::{Datelike, Timelike};
+            if (1000..=9999).contains(&t.year()) && t.nanosecond() < 1_000_000_000 {
+                match chrono::NaiveDateTime::parse_from_str(b, "%Y-%m-%d %H:%M:%S%.3f") {
+                    Ok(n) if n == t.naive_local().with_nanosecond(t.nanosecond() / 1_000_000 * 1_000_000).unwrap_or(t.naive_local()) => {}
+                    other => return Err(format!("TIMESTAMP {:?} printed as {:?}, which reads back as {:?}", t, b, other)),
+                }
+            }
+            Ok(())
+        }
         (Value::Array(_, xs), J::Array(ys)) => {
             if xs.len() != ys.len() { return Err(format!("array of {} elements printed with {}", xs.len(), ys.len())); }
             for (x, y) in xs.iter().zip(ys.iter()) { json_recovers(x, y, toks)?; }
@@ -532,5 +556,8 @@ pub fn run(p: &Params) -> Run {
     }
     // the end-to-end stream: the same property seen from raw texts and raw file bytes (`e2e.rs`, Lean `Pipeline.runText`)
     crate::e2e::stream(&mut run, &mut Rng::new(p.seed ^ 0xe2e17), p.n(250, 3000), "print");
+    // the RFC 8259 grammar the JSON theorems are stated against (Spec/JsonGrammar.lean), validated on its own:
+    // generated JSON texts judged by serde_json and by the Lean parser that decides that grammar
+    crate::jsontext::stream(&mut run, &mut Rng::new(p.seed ^ 0x8259), p.n(1500, 40_000));
     run
 }
